@@ -1,6 +1,7 @@
 import J5V.Compile.ConvertProofs
 import J5V.Compile.AppendDecl
 import J5V.Compile.Congr
+import J5V.Compile.AppendDeclPkg
 /-!
 # C13 — appending declarations never changes existing wire identities
 
@@ -103,6 +104,34 @@ theorem C13_append_decl (res : Resolver) (path : Str) (imports : List Import)
       f.msgs <+: f'.msgs ∧ f.enums <+: f'.enums ∧ f.svcs <+: f'.svcs :=
   convertFile_append_decl res path imports elems e fs fs' h h'
 
+/-- **Append a declaration, package level.** `CompilePackage` of a package before and after a
+declaration is appended to one of its files (the other files, the other packages, the dependency
+graph arbitrary). The edit changes the package's export table; provided the references of the
+existing declarations resolve as before (`AgreeFile` — true when the names the new declaration
+introduces are fresh), every generated file of the old compile is generated again under the same
+name and package with the old messages, enums and services as a prefix. -/
+theorem C13_append_decl_pkg (b b' : Bundle) (name : Str) (p p' : Pkg) (l l' : Loaded)
+    (fuel fuel' : Nat) (chain chain' : List Str)
+    (hf : b.find name = some p) (hf' : b'.find name = some p')
+    (hl : loadPkg b (fuel + 1) chain name = .ok l)
+    (hl' : loadPkg b' (fuel' + 1) chain' name = .ok l')
+    (pre post : List SrcFile) (path : Str) (imports : List Import) (elems : List Elem) (e : Elem)
+    (hp : p.files = pre ++ [.j5s path imports elems] ++ post)
+    (hp' : p'.files = pre ++ [.j5s path imports (elems ++ [e])] ++ post)
+    (hagree : ∀ f ∈ p.files, AgreeFile l.resolver l'.resolver f) :
+    ∀ f ∈ l.files, ∃ f' ∈ l'.files, f.Le f' :=
+  append_decl_pkg b b' name p p' l l' fuel fuel' chain chain' hf hf' hl hl' pre post path imports
+    elems e hp hp' hagree
+
+/-- conversion depends on the resolver only at the references it contains: the bridge between the
+per-container theorems and package-level edits -/
+theorem C13_convert_congr (res res' : Resolver) (path : Str) (imports : List Import)
+    (elems : List Elem)
+    (h : ∀ im, AgreeOn { resolve := resolveTypeNoImport im res } { resolve := resolveTypeNoImport im res' }
+      (fileRefs (packageFromFilename (path ++ b!".proto")) elems)) :
+    convertFile res path imports elems = convertFile res' path imports elems :=
+  convertFile_congr res res' path imports elems h
+
 /-- messages, enums and services are only ever appended to a file under construction
 (`addMessage` / `addEnum` / `addService`), whatever the step -/
 theorem C13_addMessage_prefix (r : Root) (s : Step) : r.Le (r.apply s) := Root.le_apply r s
@@ -127,5 +156,35 @@ example :
     (convEnum { name := b!"Foo", pfx := [], opts := [b!"A", b!"B"] }).values =
       (convEnum { name := b!"Foo", pfx := [], opts := [b!"A"] }).values ++ [(b!"FOO_B", 2)] := by
   decide
+
+/-! a concrete instance of `C13_append_decl_pkg`: two files (the second refers to a type of the
+first), an enum appended to the first file; both compiles succeed and the resolvers agree on the
+existing references -/
+def fileA (extra : List Elem) : SrcFile :=
+  .j5s b!"foo/v1/a.j5s" [] ([.object (.mk b!"A" [.mk b!"x" false false (.string [] false)] [] none)] ++ extra)
+def fileB : SrcFile :=
+  .j5s b!"foo/v1/b.j5s" [] [.object (.mk b!"B" [.mk b!"a" false false (.objectRef [] b!"A" false [])] [] none)]
+def bun (extra : List Elem) : Bundle := { pkgs := [ { name := b!"foo.v1", files := [fileA extra, fileB] } ] }
+def newDecl : Elem := .enum { name := b!"E", pfx := [], opts := [b!"ONE"] }
+def lOld : Loaded := match loadPkg (bun []) 2 [] b!"foo.v1" with | .ok l => l | _ => default
+def lNew : Loaded := match loadPkg (bun [newDecl]) 2 [] b!"foo.v1" with | .ok l => l | _ => default
+
+example : (loadPkg (bun []) 2 [] b!"foo.v1").isOk = true ∧
+    (loadPkg (bun [newDecl]) 2 [] b!"foo.v1").isOk = true := by decide
+
+example : ∀ f ∈ [fileA [], fileB], AgreeFile lOld.resolver lNew.resolver f := by
+  intro f hf im r hr
+  have hrefs : srcFileRefs (fileA []) = [] ∧ srcFileRefs fileB = [([], b!"A")] := by decide
+  simp only [List.mem_cons, List.mem_nil_iff, or_false] at hf
+  rcases hf with rfl | rfl
+  · rw [hrefs.1] at hr; simp at hr
+  · rw [hrefs.2] at hr
+    simp only [List.mem_singleton] at hr
+    subst hr
+    have h1 : lOld.resolver.pkgName = lNew.resolver.pkgName := by decide
+    have h2 : mapGet lOld.resolver.exports b!"A" = mapGet lNew.resolver.exports b!"A" := by decide
+    have h3 : lOld.resolver.deps = [] ∧ lNew.resolver.deps = [] := by decide
+    simp only [resolveTypeNoImport, ImportMap.expand, Bool.true_or, decide_true, if_true,
+      Resolver.resolveType, h1, h2, h3.1, h3.2]
 
 end J5V.Props.C13
